@@ -95,7 +95,22 @@ def roundtrip(msg, defn, enc):
         return [("parsed_message_not_encodable", {"error": type(ex).__name__}, f"original encodes to {e1}, parsed message: {type(ex).__name__}: {ex}")]
     if e1 != e2:
         out.append(("encodes_differently", {}, f"original {e1} vs parsed {e2}"))
+        return out
+    # the frame-level encoders build a CAN identifier from the addressing: same packets expected (fresh encoders: same counter)
+    try:
+        b1 = NMEA2000Encoder().encode_ebyte(msg)
+    except Exception:  # noqa: BLE001
+        return out
+    try:
+        b2 = NMEA2000Encoder().encode_ebyte(back)
+    except Exception as ex:  # noqa: BLE001
+        return [("parsed_message_not_encodable", {"error": type(ex).__name__, "format": "ebyte"}, f"original encodes, parsed message: {type(ex).__name__}: {ex}")]
+    if list(b1) != list(b2):
+        out.append(("encodes_differently", {"format": "ebyte"}, f"EByte packets differ: {[x.hex() for x in b1][:2]} vs {[x.hex() for x in b2][:2]}"))
     return out
+
+
+ADDRESSING = [(3, 7, 255), (0, 0, 0), (7, 254, 0), (6, 1, 254), (2, 253, 37), (7, 0, 255)]
 
 
 def _task_a(args):
@@ -114,8 +129,14 @@ def _task_a(args):
         for label, p, n in enumerate_cases(defn, 2, 8 if deep else 0, seed, payloads.BASES, k2_bases=("mid",) if deep else ()):
             st["cases"] += 1
             dec = mapped if st["cases"] % 3 == 0 else plain_dec
+            # addressing varies with the case: the extreme legal priorities, sources and (for addressed PGNs) destinations included
+            prio, src, dst = ADDRESSING[(st["cases"] // 3) % len(ADDRESSING)]
+            if dec is mapped:
+                src = 7
+            if ((defn.pgn >> 8) & 0xFF) >= 240:
+                dst = 255
             try:
-                msg = dec.decode_basic_string(wire.plain_line(3, defn.pgn, 7, 255, p.to_bytes(n, "little")), already_combined=True)
+                msg = dec.decode_basic_string(wire.plain_line(prio, defn.pgn, src, dst, p.to_bytes(n, "little")), already_combined=True)
             except Exception:  # noqa: BLE001
                 continue
             if msg is None:
@@ -130,7 +151,7 @@ def _task_a(args):
                     vios.append({"kind": kind, "facts": dict(facts, definition=msg.id),
                                  "signature": f"{kind}:{defn.pgn}:{msg.id}:{facts.get('field')}:{facts.get('which')}",
                                  "detail": f"[PGN {defn.pgn} {msg.id} payload={p.to_bytes(n, 'little').hex()[:80]} identity={'yes' if dec is mapped else 'no'}] {detail}",
-                                 "case": {"part": "a", "pgn": defn.pgn, "payload_hex": p.to_bytes(n, "little").hex(), "mapped": dec is mapped}})
+                                 "case": {"part": "a", "pgn": defn.pgn, "payload_hex": p.to_bytes(n, "little").hex(), "mapped": dec is mapped, "addr": [prio, src, dst]}})
             if sample is None and label[1] and any(isinstance(f.value, (bytes, dt.date, dt.time)) for f in msg.fields):
                 sample = {"part": "a", "pgn": defn.pgn, "definition": msg.id, "payload_hex": p.to_bytes(n, "little").hex(), "json": msg.to_json()[:300]}
     return st, vios, sample
@@ -323,7 +344,8 @@ def replay(ctx, rep):
             dec.decode_tcp(wire.claim_packet(7, wire.iso_name(unique=77, mfr=1855)))
         else:
             dec = NMEA2000Decoder()
-        msg = dec.decode_basic_string(wire.plain_line(3, c["pgn"], 7, 255, data), already_combined=True)
+        prio, src, dst = c.get("addr", [3, 7, 255])
+        msg = dec.decode_basic_string(wire.plain_line(prio, c["pgn"], src, dst, data), already_combined=True)
         res = roundtrip(msg, db.by_id.get((msg.PGN, msg.id)), NMEA2000Encoder())
     else:
         work = ctx.scratch()
